@@ -236,6 +236,155 @@ CLOSURE_PRE = '''
 '''
 
 
+CBC_ENC_PRE = CLOSURE_PRE + '''
+        let ghost iv0 = self.iv@;
+        let ghost e = cipher.enc_fn();
+        let ghost m0 = buf0.in_val();
+'''
+AFTER_CHUNKS = '''
+        let ghost ps0 = aviews(blocks.in_val());
+        let ghost t0 = tail.in_val();
+        let ghost n = ps0.len() as int;
+        let ghost d = t0.len() as int;
+        proof {
+            assert(is_chunking(m0, bl, ps0, t0));
+            chunking_len(m0, bl, ps0, t0);
+            assert(n >= 1) by (nonlinear_arith) requires n == (ll as int) / (bl as int), ll >= bl, bl > 0;
+        }
+'''
+AFTER_CBC_ENC = '''
+        let ghost cs = cbc_chain(e, iv0, ps0);
+        proof {
+            cbc_c_is_run(e, iv0, ps0);
+            run_len(cbc_enc_step(e), seq![iv0], ps0);
+            assert(aviews(blocks.out_cur()) == cs);
+            assert(seq![iv@] == seq![cbc_c(e, iv0, ps0, n - 1)]);
+            assert(seq![iv@][0] == seq![cbc_c(e, iv0, ps0, n - 1)][0]);
+            assert(cs[n - 1] == cbc_c(e, iv0, ps0, n - 1));
+            assert(iv@ == cs[n - 1]);
+        }
+'''
+UNIQ = '''
+            assert forall |ps: Seq<Blk>, t: Seq<u8>| #[trigger] is_chunking(m0, bl, ps, t) implies buf.out_cur() == %s by {
+                chunking_unique(m0, bl, ps, t, ps0, t0);
+            }
+'''
+ZERO_HINT = '''
+            proof { axiom_zero_array::<u8, BS>(); }
+            broadcast use axiom_zero_u8;
+'''
+PAD_HINT = '''
+            assert(block@ =~= pad0(t0, bl));
+'''
+CLAST_HINT = '''
+            assert(block@ == e(xor_seq(pad0(t0, bl), cs[n - 1])));
+'''
+CBC3_ENC_END = '''
+        proof {
+            let outs = aviews(blocks.out_cur());
+            assert(buf.out_cur() == flatg(outs) + tail.out_cur());
+            if d == 0 {
+                assert(tail.out_cur() =~= Seq::<u8>::empty());
+                if n > 1 {
+                    assert(outs =~= cs.take(n - 2).push(cs[n - 1]).push(cs[n - 2]));
+                    flatg_push(cs.take(n - 2).push(cs[n - 1]), cs[n - 2]);
+                    flatg_push(cs.take(n - 2), cs[n - 1]);
+                } else {
+                    assert(outs =~= cs);
+                }
+                assert(buf.out_cur() =~= cs_arrange(3, cs, 0, e(xor_seq(pad0(t0, iv0.len()), cs[n - 1]))));
+            } else {
+                let c_last = e(xor_seq(pad0(t0, bl), cs[n - 1]));
+                assert(outs =~= cs.take(n - 1).push(c_last));
+                flatg_push(cs.take(n - 1), c_last);
+                assert(tail.out_cur() =~= cs[n - 1].take(d));
+                assert(buf.out_cur() =~= cs_arrange(3, cs, d as nat, c_last));
+            }
+            assert(buf.out_cur() == cbc_cs_enc(3, e, iv0, ps0, t0));
+''' + UNIQ % 'cbc_cs_enc(3, e, iv0, ps, t)' + '''
+        }
+'''
+
+
+def early_return_proof(spec_call):
+    # whole number of blocks: the helper's output is already the answer (CS1/CS2: plain CBC / ECB)
+    return '''
+            proof {
+                assert(tail.out_cur() =~= Seq::<u8>::empty());
+                assert(buf.out_cur() =~= flatg(cs));
+''' + UNIQ % spec_call + '''
+            }
+'''
+
+
+CBC2_ENC_END = '''
+        proof {
+            let outs = aviews(blocks.out_cur());
+            assert(buf.out_cur() == flatg(outs) + tail.out_cur());
+            let c_last = e(xor_seq(pad0(t0, bl), cs[n - 1]));
+            assert(outs =~= cs.take(n - 1).push(c_last));
+            flatg_push(cs.take(n - 1), c_last);
+            assert(tail.out_cur() =~= cs[n - 1].take(d));
+            assert(buf.out_cur() =~= cs_arrange(2, cs, d as nat, c_last));
+            assert(buf.out_cur() == cbc_cs_enc(2, e, iv0, ps0, t0));
+''' + UNIQ % 'cbc_cs_enc(2, e, iv0, ps, t)' + '''
+        }
+'''
+CBC1_AFTER_CHUNKS = AFTER_CHUNKS + '''
+        let ghost gb = blocks;
+        let ghost gt = tail;
+'''
+CBC1_AFTER_ENC = '''
+        let ghost cs = cbc_chain(e, iv0, ps0);
+        proof {
+            cbc_c_is_run(e, iv0, ps0);
+            run_len(cbc_enc_step(e), seq![iv0], ps0);
+            assert(aviews(gb.out_fut()) == cs);
+            assert(seq![iv@][0] == seq![cbc_c(e, iv0, ps0, n - 1)][0]);
+            assert(cs[n - 1] == cbc_c(e, iv0, ps0, n - 1));
+            assert(iv@ == cs[n - 1]);
+        }
+'''
+CBC1_EARLY = '''
+            proof {
+                assert(gt.out_fut() =~= Seq::<u8>::empty());
+                assert(buf.out_cur() =~= flatg(cs));
+''' + UNIQ % 'cbc_cs_enc(1, e, iv0, ps, t)' + '''
+            }
+'''
+CBC1_ENC_END = '''
+        proof {
+            let c_last = e(xor_seq(pad0(t0, bl), cs[n - 1]));
+            let before = flatg(cs) + gt.out_fut();
+            flatg_len(cs, bl);
+            flatg_len(cs.take(n - 1), bl);
+            assert(cs =~= cs.take(n - 1).push(cs[n - 1]));
+            flatg_push(cs.take(n - 1), cs[n - 1]);
+            assert((n - 1) * bl + bl == n * bl) by (nonlinear_arith);
+            assert(before.take((n - 1) * bl + d) =~= flatg(cs.take(n - 1)) + cs[n - 1].take(d));
+            assert(buf.out_cur() =~= flatg(cs.take(n - 1)) + cs[n - 1].take(d) + c_last);
+            assert(buf.out_cur() == cbc_cs_enc(1, e, iv0, ps0, t0));
+''' + UNIQ % 'cbc_cs_enc(1, e, iv0, ps, t)' + '''
+        }
+'''
+
+
+def cbc_enc_call(variant):
+    at = ['#[verifier::loop_isolation(false)]']
+    if variant == 3:
+        return FnC(props=PG, inherits=True, attrs=at,
+                   stmts={'0': CBC_ENC_PRE, '2': AFTER_CHUNKS, '3': AFTER_CBC_ENC, '3.1.1': ZERO_HINT, '3.1.2': PAD_HINT,
+                          '3.1.4': CLAST_HINT, 'end': CBC3_ENC_END})
+    if variant == 2:
+        return FnC(props=PG, inherits=True, attrs=at,
+                   stmts={'0': CBC_ENC_PRE, '2': AFTER_CHUNKS, '3': AFTER_CBC_ENC,
+                          '3.0.0': early_return_proof('cbc_cs_enc(2, e, iv0, ps, t)'),
+                          '5': ZERO_HINT, '6': PAD_HINT, '8': CLAST_HINT, 'end': CBC2_ENC_END})
+    return FnC(props=PG, inherits=True, attrs=at,
+               stmts={'0': CBC_ENC_PRE, '2': CBC1_AFTER_CHUNKS, '3': CBC1_AFTER_ENC, '3.0.0': CBC1_EARLY,
+                      '5': ZERO_HINT, '6': PAD_HINT, '8': CLAST_HINT, 'end': CBC1_ENC_END})
+
+
 def variant_mod(fname, obj, cbc, variant, enc_call=None, dec_call=None):
     modname = 'cts_' + fname
     b = 'C::BlockSize::USIZE as nat'
@@ -293,4 +442,7 @@ def variant_mod(fname, obj, cbc, variant, enc_call=None, dec_call=None):
 
 
 def unit():
-    return Unit('cts', prelude=K.PRELUDE_BLOCK, spec=['steps.rs', 'cts.rs'], mods=[lib_mod(), variant_mod('cbc_cs3', 'CbcCs3', True, 3)])
+    return Unit('cts', prelude=K.PRELUDE_BLOCK, spec=['steps.rs', 'cts.rs'], mods=[lib_mod(),
+                      variant_mod('cbc_cs1', 'CbcCs1', True, 1, enc_call=cbc_enc_call(1)),
+                      variant_mod('cbc_cs2', 'CbcCs2', True, 2, enc_call=cbc_enc_call(2)),
+                      variant_mod('cbc_cs3', 'CbcCs3', True, 3, enc_call=cbc_enc_call(3))])
